@@ -469,6 +469,8 @@ class Bin(Factory, Container):
             q = np.array(q, dtype=int)
             # same clamp as in bin(): rounding can produce num for values just below high
             q[inrange & (q >= self.num)] = self.num - 1
+            # and, as in bin(), no bin for values outside [low, high): rounding can produce num - 1 for high itself
+            q[~inrange] = -1
 
             for index, value in enumerate(self.values):
                 np.not_equal(q, index, selection)
